@@ -17,6 +17,7 @@ import (
 	"sort"
 	"strings"
 
+	"gverif/cfgx"
 	"gverif/core"
 
 	"golang.org/x/tools/go/packages"
@@ -125,6 +126,8 @@ type funcAnalysis struct {
 	inAlias     map[types.Object]bool
 	// incFlags: boolean locals defined from a test of P.Inc (fast := x.Inc == 1 && ...)
 	incFlags map[types.Object]map[string]bool
+	// workBlocks: "work[off:]" -> leading dimensions it is used with
+	workBlocks map[string][]workUse
 }
 
 // findAliases records locals of Data/Stride struct type that are defined
@@ -619,7 +622,7 @@ func (fa *funcAnalysis) checkContiguous(body ast.Node) {
 			Rule: "STRIDE.contig",
 			Key:  fmt.Sprintf("STRIDE.contig|%s|%s", fa.name, fa.ownerName[p]),
 			Pos:  core.Pos(at.Pos()), Func: fa.name,
-			Msg:  fmt.Sprintf("the Data of strided vector %q is %s without any test of %s.Inc on the path: with Inc != 1 the wrong elements are used", fa.ownerName[p], how, fa.ownerName[p]),
+			Msg: fmt.Sprintf("the Data of strided vector %q is %s without any test of %s.Inc on the path: with Inc != 1 the wrong elements are used", fa.ownerName[p], how, fa.ownerName[p]),
 		})
 	}
 	ast.Inspect(body, func(n ast.Node) bool {
@@ -788,9 +791,289 @@ func (fa *funcAnalysis) checkStartOffsets(body ast.Node) {
 	})
 }
 
+// stripConv removes parentheses and integer conversions.
+func (fa *funcAnalysis) stripConv(e ast.Expr) ast.Expr {
+	for {
+		switch x := e.(type) {
+		case *ast.ParenExpr:
+			e = x.X
+			continue
+		case *ast.CallExpr:
+			if fa.isConversion(x) && len(x.Args) == 1 {
+				e = x.Args[0]
+				continue
+			}
+		}
+		return e
+	}
+}
+
+// countOf matches e against ±(E-1)*inc or ±(1-E)*inc (inc carrying owner's
+// unit) and returns the text of E.
+func (fa *funcAnalysis) countOf(e ast.Expr, owner string) (string, bool) {
+	e = fa.stripConv(e)
+	if u, ok := e.(*ast.UnaryExpr); ok && u.Op == token.SUB {
+		return fa.countOf(u.X, owner)
+	}
+	be, ok := e.(*ast.BinaryExpr)
+	if !ok || be.Op != token.MUL {
+		return "", false
+	}
+	isInc := func(x ast.Expr) bool {
+		x = fa.stripConv(x)
+		if u, ok := x.(*ast.UnaryExpr); ok && u.Op == token.SUB {
+			x = fa.stripConv(u.X)
+		}
+		id, ok := x.(*ast.Ident)
+		if !ok {
+			if sel, ok := x.(*ast.SelectorExpr); ok && (sel.Sel.Name == "Inc") {
+				u := map[string]bool{}
+				fa.exprUnits(x, u)
+				return u[owner]
+			}
+			return false
+		}
+		o := core.ObjOf(fa.info, id)
+		return o != nil && fa.strideOwner[o] == owner
+	}
+	cnt := func(x ast.Expr) (string, bool) {
+		x = fa.stripConv(x)
+		if u, ok := x.(*ast.UnaryExpr); ok && u.Op == token.SUB {
+			x = fa.stripConv(u.X)
+		}
+		b, ok := x.(*ast.BinaryExpr)
+		if !ok || b.Op != token.SUB {
+			return "", false
+		}
+		one := func(y ast.Expr) bool {
+			tv, ok := fa.info.Types[y]
+			return ok && tv.Value != nil && tv.Value.ExactString() == "1"
+		}
+		switch {
+		case one(b.Y):
+			return types.ExprString(fa.stripConv(b.X)), true
+		case one(b.X):
+			return types.ExprString(fa.stripConv(b.Y)), true
+		}
+		return "", false
+	}
+	if isInc(be.Y) {
+		return cnt(be.X)
+	}
+	if isInc(be.X) {
+		return cnt(be.Y)
+	}
+	return "", false
+}
+
+// checkExtents: STRIDE.extent. The element count of a strided vector
+// appears in its length check (len(v) <= (E-1)*incV), in its
+// negative-increment start offset (kv = -(E-1)*incV) and as the bound of the
+// loop that steps its index by incV. All of them denote one quantity: a
+// start offset written with the other dimension (m for n) addresses outside
+// the vector, or the wrong end of it, for negative increments only.
+func (fa *funcAnalysis) checkExtents(body ast.Node) {
+	type use struct {
+		kind, count string
+		pos         token.Pos
+	}
+	uses := map[string][]use{}
+	par := cfgx.Parents(body)
+	isVec := func(owner string) bool {
+		for o, k := range fa.strideOwner {
+			if k == owner && strings.HasPrefix(strings.ToLower(o.Name()), "inc") {
+				return true
+			}
+		}
+		return false
+	}
+	ast.Inspect(body, func(n ast.Node) bool {
+		switch x := n.(type) {
+		case *ast.AssignStmt:
+			if len(x.Lhs) != 1 || len(x.Rhs) != 1 {
+				return true
+			}
+			if x.Tok == token.ASSIGN || x.Tok == token.DEFINE {
+				u := map[string]bool{}
+				fa.exprUnits(x.Rhs[0], u)
+				for owner := range u {
+					if !isVec(owner) {
+						continue
+					}
+					if c, ok := fa.countOf(x.Rhs[0], owner); ok {
+						uses[owner] = append(uses[owner], use{"start offset", c, x.Pos()})
+					}
+				}
+			}
+			if x.Tok == token.ADD_ASSIGN || x.Tok == token.SUB_ASSIGN {
+				id, ok := fa.stripConv(x.Rhs[0]).(*ast.Ident)
+				if !ok {
+					return true
+				}
+				o := core.ObjOf(fa.info, id)
+				owner, ok := fa.strideOwner[o]
+				if !ok || !isVec(owner) {
+					return true
+				}
+				// nearest enclosing for statement
+				for q := par[x]; q != nil; q = par[q] {
+					fs, ok := q.(*ast.ForStmt)
+					if !ok {
+						continue
+					}
+					if c, ok := fa.loopCount(fs); ok {
+						uses[owner] = append(uses[owner], use{"loop bound", c, fs.Pos()})
+					}
+					break
+				}
+			}
+		case *ast.BinaryExpr:
+			switch x.Op {
+			case token.LSS, token.LEQ, token.GTR, token.GEQ:
+			default:
+				return true
+			}
+			for _, pair := range [][2]ast.Expr{{x.X, x.Y}, {x.Y, x.X}} {
+				c, ok := fa.stripConv(pair[0]).(*ast.CallExpr)
+				if !ok || len(c.Args) != 1 {
+					continue
+				}
+				if id, ok := c.Fun.(*ast.Ident); !ok || id.Name != "len" {
+					continue
+				}
+				owner, ok := fa.baseOwner(rootBase(c.Args[0]))
+				if !ok || !isVec(owner) {
+					continue
+				}
+				ast.Inspect(pair[1], func(m ast.Node) bool {
+					if e, ok := m.(ast.Expr); ok {
+						if cnt, ok := fa.countOf(e, owner); ok {
+							uses[owner] = append(uses[owner], use{"length check", cnt, x.Pos()})
+							return false
+						}
+					}
+					return true
+				})
+			}
+		}
+		return true
+	})
+	// locals defined exactly once from another name (lenX := n) are names
+	// for it
+	defs := map[string][]string{}
+	ast.Inspect(body, func(n ast.Node) bool {
+		as, ok := n.(*ast.AssignStmt)
+		if !ok || len(as.Lhs) != len(as.Rhs) {
+			return true
+		}
+		for i, l := range as.Lhs {
+			if id, ok := l.(*ast.Ident); ok {
+				defs[id.Name] = append(defs[id.Name], types.ExprString(fa.stripConv(as.Rhs[i])))
+			}
+		}
+		return true
+	})
+	resolve := func(c string) string {
+		for i := 0; i < 4; i++ {
+			d, ok := defs[c]
+			if !ok || len(d) != 1 || !token.IsIdentifier(d[0]) {
+				break
+			}
+			c = d[0]
+		}
+		return c
+	}
+	var owners []string
+	for o := range uses {
+		owners = append(owners, o)
+	}
+	sort.Strings(owners)
+	for _, owner := range owners {
+		us := uses[owner]
+		for i := range us {
+			us[i].count = resolve(us[i].count)
+		}
+		ref := ""
+		hasLen := false
+		for _, u := range us {
+			if u.kind == "length check" {
+				ref = u.count
+				hasLen = true
+				break
+			}
+		}
+		if ref == "" {
+			for _, u := range us {
+				if u.kind == "loop bound" {
+					ref = u.count
+					break
+				}
+			}
+		}
+		if ref == "" {
+			continue
+		}
+		// where the routine states the extent in a length check, the loops
+		// (triangular, banded, blocked) legitimately walk parts of it
+		if hasLen {
+			var keep []use
+			for _, u := range us {
+				if u.kind != "loop bound" {
+					keep = append(keep, u)
+				}
+			}
+			us = keep
+		}
+		fa.res.Count("vector_extent_owners", 1)
+		for _, u := range us {
+			fa.res.Obligations++
+			fa.res.Count("vector_extent_uses", 1)
+			if u.count == ref {
+				continue
+			}
+			fa.res.Add(core.Finding{
+				Rule: "STRIDE.extent",
+				Key:  fmt.Sprintf("STRIDE.extent|%s|%s|%s:%s", fa.name, fa.ownerLabel(owner), u.kind, u.count),
+				Pos:  core.Pos(u.pos), Func: fa.name,
+				Msg: fmt.Sprintf("the %s of strided vector %q uses element count %q, but the vector's extent elsewhere in this routine is %q",
+					u.kind, fa.ownerLabel(owner), u.count, ref),
+			})
+		}
+	}
+}
+
+// loopCount returns B for `for i := 0; i < B; i++` and `for i := B - 1; i >= 0; i--`.
+func (fa *funcAnalysis) loopCount(fs *ast.ForStmt) (string, bool) {
+	be, ok := fs.Cond.(*ast.BinaryExpr)
+	if !ok {
+		return "", false
+	}
+	init, ok := fs.Init.(*ast.AssignStmt)
+	if !ok || len(init.Lhs) != 1 || len(init.Rhs) != 1 {
+		return "", false
+	}
+	tv, isConst := fa.info.Types[init.Rhs[0]]
+	switch be.Op {
+	case token.LSS:
+		if isConst && tv.Value != nil && tv.Value.ExactString() == "0" {
+			return types.ExprString(fa.stripConv(be.Y)), true
+		}
+	case token.GEQ:
+		if z, ok := fa.info.Types[be.Y]; ok && z.Value != nil && z.Value.ExactString() == "0" {
+			if b, ok := fa.stripConv(init.Rhs[0]).(*ast.BinaryExpr); ok && b.Op == token.SUB {
+				if o, ok := fa.info.Types[b.Y]; ok && o.Value != nil && o.Value.ExactString() == "1" {
+					return types.ExprString(fa.stripConv(b.X)), true
+				}
+			}
+		}
+	}
+	return "", false
+}
+
 func (fa *funcAnalysis) check(body ast.Node) {
 	fa.checkContiguous(body)
 	fa.checkStartOffsets(body)
+	fa.checkExtents(body)
 	ast.Inspect(body, func(n ast.Node) bool {
 		switch x := n.(type) {
 		case *ast.IndexExpr:
@@ -885,12 +1168,230 @@ func (fa *funcAnalysis) checkCall(c *ast.CallExpr) {
 		k, ok := fa.baseOwner(base)
 		if !ok {
 			fa.res.Count("call_pairs_unowned", 1)
+			fa.noteWorkBlock(c.Args[i], sig.Params().At(j), c.Args[j])
 			continue
 		}
 		fa.res.Count("call_pairs", 1)
 		fa.checkUnits("call", k, c.Args[j], c.Args[j].Pos())
 		fa.checkVectorWalk(k, sig.Params().At(j), c.Args[j])
+		fa.checkVectorInc(k, sig.Params().At(j), c.Args[j])
 	}
+	// start-index parameters of the strided kernels (ix, iy, idst): the
+	// argument is an index into the operand passed for the slice parameter
+	// of that name, so it obeys the same rules as an index expression.
+	ps := sig.Params()
+	for j := 0; j < ps.Len(); j++ {
+		pn := strings.ToLower(ps.At(j).Name())
+		if !isIntLike(ps.At(j).Type()) || len(pn) < 2 || pn[0] != 'i' || strings.HasPrefix(pn, "inc") {
+			continue
+		}
+		for i := 0; i < ps.Len(); i++ {
+			if !isSlice(ps.At(i).Type()) || strings.ToLower(ps.At(i).Name()) != pn[1:] {
+				continue
+			}
+			if _, paired := pairs[i]; !paired {
+				continue
+			}
+			k, ok := fa.baseOwner(rootBase(c.Args[i]))
+			if !ok {
+				continue
+			}
+			fa.res.Count("start_index_args", 1)
+			fa.checkUnits("index", k, c.Args[j], c.Args[j].Pos())
+			fa.checkRowOffset(k, c.Args[j], c.Args[j].Pos())
+		}
+	}
+}
+
+// noteWorkBlock records the leading dimension a workspace block work[off:]
+// (off a variable) is used with; checkWorkBlocks requires all uses of one
+// block in a function to agree.
+func (fa *funcAnalysis) noteWorkBlock(arg ast.Expr, strideParam *types.Var, ld ast.Expr) {
+	if !strings.HasPrefix(strings.ToLower(strideParam.Name()), "ld") {
+		return
+	}
+	se, ok := ast.Unparen(arg).(*ast.SliceExpr)
+	if !ok || se.Low == nil {
+		return
+	}
+	base, ok := ast.Unparen(se.X).(*ast.Ident)
+	if !ok {
+		return
+	}
+	off, ok := ast.Unparen(se.Low).(*ast.Ident)
+	if !ok {
+		return
+	}
+	if tv, ok := fa.info.Types[se.Low]; ok && tv.Value != nil {
+		return
+	}
+	key := base.Name + "[" + off.Name + ":]"
+	if fa.workBlocks == nil {
+		fa.workBlocks = map[string][]workUse{}
+	}
+	fa.workBlocks[key] = append(fa.workBlocks[key], workUse{types.ExprString(ld), ld.Pos()})
+}
+
+type workUse struct {
+	ld  string
+	pos token.Pos
+}
+
+// checkWorkNext: STRIDE.worknext. A workspace block work[off:] that is used
+// as a matrix with leading dimension L occupies L*rows elements, so the
+// offset of whatever is laid out after it, written `next = off + E`, has E
+// built from L. `itau = iu + n*n` for a block used with ldworku packs the
+// next region into the block whenever ldworku > n.
+func (fa *funcAnalysis) checkWorkNext(body ast.Node) {
+	ldOf := map[string]string{} // offset variable -> ld identifier
+	for k, uses := range fa.workBlocks {
+		if !strings.HasPrefix(k, "work[") {
+			continue // only the workspace slice is partitioned by offset variables
+		}
+		i := strings.Index(k, "[")
+		off := strings.TrimSuffix(k[i+1:], ":]")
+		n := map[string]int{}
+		for _, u := range uses {
+			n[u.ld]++
+		}
+		best, bestN := "", 0
+		for ld, c := range n {
+			if c > bestN || c == bestN && ld < best {
+				best, bestN = ld, c
+			}
+		}
+		if token.IsIdentifier(best) {
+			ldOf[off] = best
+		}
+	}
+	if len(ldOf) == 0 {
+		return
+	}
+	ast.Inspect(body, func(n ast.Node) bool {
+		as, ok := n.(*ast.AssignStmt)
+		if !ok || len(as.Lhs) != len(as.Rhs) {
+			return true
+		}
+		for i, r := range as.Rhs {
+			if _, ok := as.Lhs[i].(*ast.Ident); !ok {
+				continue
+			}
+			be, ok := ast.Unparen(r).(*ast.BinaryExpr)
+			if !ok || be.Op != token.ADD {
+				continue
+			}
+			for _, pair := range [][2]ast.Expr{{be.X, be.Y}, {be.Y, be.X}} {
+				id, ok := ast.Unparen(pair[0]).(*ast.Ident)
+				if !ok {
+					continue
+				}
+				ld, ok := ldOf[id.Name]
+				if !ok {
+					continue
+				}
+				if tv, ok := fa.info.Types[pair[1]]; ok && tv.Value != nil {
+					continue
+				}
+				fa.res.Obligations++
+				fa.res.Count("work_block_successors", 1)
+				mentions := false
+				ast.Inspect(pair[1], func(m ast.Node) bool {
+					if x, ok := m.(*ast.Ident); ok && x.Name == ld {
+						mentions = true
+					}
+					return !mentions
+				})
+				if !mentions {
+					fa.res.Add(core.Finding{
+						Rule: "STRIDE.worknext",
+						Key:  fmt.Sprintf("STRIDE.worknext|%s|%s<-%s", fa.name, types.ExprString(as.Lhs[i]), types.ExprString(r)),
+						Pos:  core.Pos(r.Pos()), Func: fa.name,
+						Msg: fmt.Sprintf("the workspace block at %s is used as a matrix with leading dimension %s, but the region after it starts at %s, which is not computed from %s: with %s larger than the row length the regions overlap",
+							id.Name, ld, types.ExprString(r), ld, ld),
+					})
+				}
+			}
+		}
+		return true
+	})
+}
+
+func (fa *funcAnalysis) checkWorkBlocks() {
+	var keys []string
+	for k := range fa.workBlocks {
+		keys = append(keys, k)
+	}
+	sort.Strings(keys)
+	for _, k := range keys {
+		uses := fa.workBlocks[k]
+		if len(uses) < 2 {
+			continue
+		}
+		fa.res.Count("work_blocks", 1)
+		n := map[string]int{}
+		for _, u := range uses {
+			n[u.ld]++
+		}
+		fa.res.Obligations += len(uses)
+		if len(n) == 1 {
+			continue
+		}
+		best, bestN := "", 0
+		for ld, c := range n {
+			if c > bestN || c == bestN && ld < best {
+				best, bestN = ld, c
+			}
+		}
+		for _, u := range uses {
+			if u.ld == best {
+				continue
+			}
+			fa.res.Add(core.Finding{
+				Rule: "STRIDE.workld",
+				Key:  fmt.Sprintf("STRIDE.workld|%s|%s<-%s", fa.name, k, u.ld),
+				Pos:  core.Pos(u.pos), Func: fa.name,
+				Msg: fmt.Sprintf("workspace block %s is used as a matrix with leading dimension %q here but with %q at its %d other uses in this function",
+					k, u.ld, best, bestN),
+			})
+		}
+	}
+}
+
+// checkVectorInc: a strided vector operand (a slice parameter paired with an
+// inc* parameter) handed on to a vector parameter of a callee keeps its own
+// increment: the increment argument must be built from the operand's inc*
+// (incX, -incX, 2*incX ...). A constant there walks the strided vector as if
+// it were contiguous.
+func (fa *funcAnalysis) checkVectorInc(owner string, strideParam *types.Var, arg ast.Expr) {
+	if !strings.HasPrefix(strings.ToLower(strideParam.Name()), "inc") {
+		return
+	}
+	isVector := false
+	for o, k := range fa.strideOwner {
+		if k == owner {
+			if strings.HasPrefix(strings.ToLower(o.Name()), "inc") {
+				isVector = true
+			}
+		}
+	}
+	if !isVector {
+		return
+	}
+	fa.res.Obligations++
+	fa.res.Count("vector_inc_forwards", 1)
+	u := map[string]bool{}
+	fa.exprUnits(arg, u)
+	if u[owner] {
+		return
+	}
+	fa.res.Add(core.Finding{
+		Rule: "STRIDE.vecinc",
+		Key:  fmt.Sprintf("STRIDE.vecinc|%s|%s<-%s", fa.name, fa.ownerLabel(owner), types.ExprString(arg)),
+		Pos:  core.Pos(arg.Pos()),
+		Func: fa.name,
+		Msg: fmt.Sprintf("strided vector operand %q is handed on with increment %q, which is not built from its own increment parameter",
+			fa.ownerLabel(owner), types.ExprString(arg)),
+	})
 }
 
 // checkVectorWalk: a 2-D operand (one paired with a leading dimension) is
@@ -1106,6 +1607,8 @@ func analyseFunc(res *core.Result, pkg *packages.Package, fd *ast.FuncDecl) {
 	before := len(res.Findings)
 	ob := res.Obligations
 	fa.check(fd.Body)
+	fa.checkWorkBlocks()
+	fa.checkWorkNext(fd.Body)
 	if res.Obligations > ob {
 		res.Count("functions_with_obligations", 1)
 		res.Sample(map[string]any{"rule": "STRIDE", "func": fa.name, "obligations": res.Obligations - ob,
